@@ -83,6 +83,11 @@ def constructed(rng):
     for c, n_ in G.modinv_boundary_all(rng)[::2]:
         s = rng.randrange(n_, 19)
         out.append(req(rng.choice(FLAGNAMES), None, rng.choice((None, s - n_, s)), c * rng.choice((1, -1)), s))
+    # kept digits (after cutting s - p of them) with binary-structured limbs, every residue mod 5
+    for s in range(1, 19):
+        p = rng.randrange(0, s)
+        for c in G.limb_quotient_values(rng, s - p, 8):
+            out.append(req(rng.choice(FLAGNAMES), rng.choice((None, 50)), p, c * rng.choice((1, -1)), s))
     # zero values under every flag set, with and without width / precision
     for s in range(0, 19, 3):
         for fl in FLAGNAMES:
